@@ -170,18 +170,23 @@ static int hdr_ref_variant (const unsigned char *h, int end, int *pos, int le, i
   if (a == 0) return 0;
   { int p2 = *pos; if (!body_ref_pad (h, end, &p2, a)) return 0; *val_at = p2; }
   /* the contained value: body_ref_value pads, checks and advances (the signature text is NUL-terminated in place) */
-  if (h[*sig_at] == 'v') return 0;   /* a variant in a variant is legal D-Bus but cannot be decoded by body_ref_value; header units never need it */
+  /* a variant inside a field value is legal D-Bus, but body_ref_value (spec/body_ref.h) does not decode 'v':
+   * answer -1 = "outside what this reference decodes"; the bounded units exclude these inputs and say so */
+  { int k; for (k = 0; k < n; k++) if (h[*sig_at + k] == 'v') return -1; }
   return body_ref_value ((const char *) h + *sig_at, 0, h, end, pos, le, 2);
 }
 
-/* Walk the fields array.  For the first field with code `want` (1..255): *val_at = offset of its value,
- * *type = its type code; *count = number of fields carrying that code.  `fn` != NULL is not used (plain C, no
- * callbacks): the whole-header validity below repeats the walk.  Returns 1 iff the array is well-formed and
- * ends exactly at 16 + fields_len. */
-static int hdr_ref_find_field (const unsigned char *h, int n, int want, int *val_at, int *type, int *count)
+/* Result of ONE walk over the fields array: for every code 0..10 the number of fields carrying it (saturating at
+ * 3), and offset / type code of the value of the first one. */
+struct hdr_ref_fields { int wf; int count[11]; int val_at[11]; int type[11]; int n_unknown; };
+/* Walk the fields array once.  out->wf: 1 iff the array is well-formed ("Marshaling": each element an 8-aligned STRUCT
+ * of BYTE and VARIANT, zero padding, elements end exactly at 16 + fields_len), 0 if malformed, -1 if a field value
+ * contains a nested variant (not decoded by this reference). */
+static int hdr_ref_walk (const unsigned char *h, int n, struct hdr_ref_fields *out)
 {
-  int le = HDR_REF_LE (h); unsigned fal; int pos, end, k;
-  *count = 0; *val_at = -1; *type = 0;
+  int le = HDR_REF_LE (h); unsigned fal; int pos, end, k, c;
+  for (c = 0; c <= 10; c++) { out->count[c] = 0; out->val_at[c] = -1; out->type[c] = 0; }
+  out->n_unknown = 0; out->wf = 0;
   if (n < 16) return 0;
   fal = hdr_ref_fields_len (h);
   if (fal > 67108864u || fal > (unsigned) (n - 16)) return 0;
@@ -189,15 +194,25 @@ static int hdr_ref_find_field (const unsigned char *h, int n, int want, int *val
   for (k = 0; k < HDR_REF_MAXFIELDS + 1; k++)
     {
       int code, sig_at, sig_len, v_at;
-      if (pos == end) return 1;
+      if (pos == end) { out->wf = 1; return 1; }
       if (pos > end) return 0;
       if (!body_ref_pad (h, end, &pos, 8)) return 0;          /* STRUCT: 8-aligned */
       if (pos + 1 > end) return 0;
       code = h[pos]; pos += 1;
-      if (!hdr_ref_variant (h, end, &pos, le, &sig_at, &sig_len, &v_at)) return 0;
-      if (code == want) { if (*count == 0) { *val_at = v_at; *type = h[sig_at]; } if (*count < 3) (*count)++; }
+      { int vr = hdr_ref_variant (h, end, &pos, le, &sig_at, &sig_len, &v_at); if (vr <= 0) { out->wf = vr; return vr; } }
+      if (code <= 10) { if (out->count[code] == 0) { out->val_at[code] = v_at; out->type[code] = h[sig_at]; } if (out->count[code] < 3) out->count[code]++; }
+      else out->n_unknown = 1;
     }
-  return pos == end;
+  out->wf = (pos == end);
+  return out->wf;
+}
+/* convenience: the first field with code `want` (0..10) */
+static int hdr_ref_find_field (const unsigned char *h, int n, int want, int *val_at, int *type, int *count)
+{
+  struct hdr_ref_fields f; int r = hdr_ref_walk (h, n, &f);
+  *count = 0; *val_at = -1; *type = 0;
+  if (r == 1 && want >= 0 && want <= 10) { *count = f.count[want]; *val_at = f.val_at[want]; *type = f.type[want]; }
+  return r;
 }
 
 /* string-like field value at v_at: content offset and length (STRING/OBJECT_PATH: UINT32 length; SIGNATURE: BYTE) */
@@ -208,8 +223,9 @@ static void hdr_ref_string_at (const unsigned char *h, int v_at, int type, int *
 }
 
 /* Whole-header verdict for an untrusted image h[0..n) holding at least the complete header:
- * 1 iff it is a valid header under [MF*], [HF*], [VN].  *hlen = header length incl. padding. */
-static int hdr_ref_valid (const unsigned char *h, int n, int *hlen)
+ * 1 iff it is a valid header under [MF*], [HF*], [VN]; 0 if not; -1 if a field value contains a nested variant (not
+ * decoded by this reference).  *hlen = header length incl. padding. */
+static int hdr_ref_valid_walked (const unsigned char *h, int n, int *hlen, const struct hdr_ref_fields *f)
 {
   int le, c, hl; unsigned fal, present = 0;
   if (n < 16) return 0;
@@ -220,26 +236,31 @@ static int hdr_ref_valid (const unsigned char *h, int n, int *hlen)
   hl = (16 + (int) fal + 7) & ~7;
   if (hl > n) return 0;
   *hlen = hl;
+  if (f->wf <= 0) return f->wf;                                          /* "Marshaling" of a(yv); -1: not decodable here */
   if (h[1] == 0) return 0;                                               /* [MF3] */
   if (h[3] != 1) return 0;                                               /* [MF5] */
   if (hdr_ref_serial (h) == 0) return 0;                                 /* [MF6] */
   { int k; for (k = 16 + (int) fal; k < hl; k++) if (h[k] != 0) return 0; } /* [MF7] */
-  /* code 0 must not appear [HF4]; known codes: right type [HF3], once, content rules */
-  for (c = 0; c <= 10; c++)
+  if (f->count[0] > 0) return 0;                                         /* [HF4] code 0 "not allowed" */
+  for (c = 1; c <= 10; c++)
     {
-      int v_at, type, count;
-      if (!hdr_ref_find_field (h, n, c, &v_at, &type, &count)) return 0;  /* array well-formed (same answer for every c) */
-      if (c == 0) { if (count > 0) return 0; continue; }
-      if (count == 0) continue;
+      int v_at = f->val_at[c], type = f->type[c];
+      if (f->count[c] == 0) continue;
       if (hdr_ref_field_type (c) == 0) continue;                           /* [HF2] unknown: accept and ignore */
       present |= 1u << c;
-      if (count > 1) return 0;                                             /* a known field given twice is not "the" field */
+      if (f->count[c] > 1) return 0;                                       /* a known field given twice is not "the" field */
       if (type != hdr_ref_field_type (c)) return 0;                        /* [HF3] */
       if (type == 'u') { if (c == HR_REPLY_SERIAL && body_ref_u32 (h, v_at, le) == 0) return 0; }   /* [HF7] */
       else { int s_at, s_len; hdr_ref_string_at (h, v_at, type, &s_at, &s_len); if (!hdr_ref_string_field_ok (c, h + s_at, s_len)) return 0; }
     }
-  /* a duplicate of a known field whose FIRST occurrence has a wrong type is caught above through `type`;
-   * a later occurrence with a wrong type is caught by count > 1 */
+  /* a duplicate whose FIRST occurrence is fine but whose later occurrence has another type is caught by count > 1 */
   return hdr_ref_mandatory_ok (h[1], present);                             /* [HF1] */
+}
+static int hdr_ref_valid (const unsigned char *h, int n, int *hlen)
+{
+  struct hdr_ref_fields f;
+  if (n < 16) return 0;
+  hdr_ref_walk (h, n, &f);
+  return hdr_ref_valid_walked (h, n, hlen, &f);
 }
 #endif
